@@ -25,6 +25,16 @@ NPROC = min(16, os.cpu_count() or 4)
 ENV = dict(os.environ)
 ENV.update({"CARGO_NET_OFFLINE": "true", "CARGO_TARGET_DIR": CARGO_TARGET,
             "RUSTFLAGS": "--cfg saphyr_verif"})
+# VERIF_COVERAGE=1 (tools/coverage.sh, never set by the registered commands): build the harness with source-based
+# coverage instrumentation into its own target directory and let every harness process write a profile; the report
+# shows which lines of /repo the generators of a check reach (lines no input reaches are where a change can hide)
+COVERAGE = os.environ.get("VERIF_COVERAGE") == "1"
+if COVERAGE:
+    CARGO_TARGET = os.path.join(BUILD, "cov")
+    HX = os.path.join(CARGO_TARGET, "debug", "hx")
+    HX_REL = HX
+    ENV.update({"CARGO_TARGET_DIR": CARGO_TARGET, "RUSTFLAGS": "--cfg saphyr_verif -C instrument-coverage",
+                "RUSTUP_TOOLCHAIN": "nightly", "LLVM_PROFILE_FILE": os.path.join(CARGO_TARGET, "prof", "%8m.profraw")})
 
 FORBIDDEN = re.compile(
     r"\b(Admitted|admit|Axiom|Axioms|Parameter|Parameters|Conjecture|Conjectures|Admit Obligations|"
@@ -246,7 +256,7 @@ def build_harness(release=False):
     lock = os.path.join(VERIF, "harness", "Cargo.lock")
     if not os.path.exists(lock):
         sh(["cp", os.path.join(REPO, "Cargo.lock"), lock])
-    cmd = ["cargo", "build", "--offline", "--quiet"] + (["--release"] if release else [])
+    cmd = ["cargo", "build", "--offline", "--quiet"] + (["--release"] if release and not COVERAGE else [])
     rc, out = sh(cmd, cwd=os.path.join(VERIF, "harness"), timeout=3000)
     return rc == 0, out[-4000:]
 
@@ -324,7 +334,7 @@ def run_mx(args, lines, timeout=1200, tag=""):
 
 def run_bin(name, args, lines, timeout=1200, release=False):
     """run another harness binary (harness/src/bin/<name>.rs) with the same line protocol"""
-    return _run_shards(os.path.join(CARGO_TARGET, "release" if release else "debug", name), args, lines, timeout)
+    return _run_shards(os.path.join(CARGO_TARGET, "release" if release and not COVERAGE else "debug", name), args, lines, timeout)
 
 
 # ------------------------------------------------------------------------------------------------
